@@ -485,3 +485,47 @@ impl VarInt for i8 {
         lemma_dec_enc_i64(v as i64, tail);
     }
 }
+
+// ---------------------------------------------------------------------------------------------
+// the two decoder contracts in the shape callers use them, for EVERY VarInt type (u8..u64, usize, i8..i64, isize)
+// ---------------------------------------------------------------------------------------------
+/// INVERSE (C09): a reader positioned on enc(v) ++ tail returns Ok(v) and is left exactly on tail
+pub proof fn lemma_read_inverse<T: VarInt>(s0: Seq<u8>, s1: Seq<u8>, res: Result<T, Error>, v: T, tail: Seq<u8>)
+    requires
+        read_post(s0, s1, res, T::dec(s0)),
+        s0 == v.enc() + tail,
+    ensures
+        res is Ok && res->Ok_0 == v && s1 == tail,
+{
+    T::law_dec_enc(v, tail);
+    assert((v.enc() + tail).skip(v.enc().len() as int) =~= tail);
+}
+
+/// TOTAL (C10): on ANY input the read returns (no panic, no overflow, termination are part of the verified body) and
+/// what is left is the input minus a prefix of at least 1 and at most 11 bytes on success, minus some prefix on failure
+pub proof fn lemma_read_total<T: VarInt>(s0: Seq<u8>, s1: Seq<u8>, res: Result<T, Error>)
+    requires
+        read_post(s0, s1, res, T::dec(s0)),
+    ensures
+        res is Ok ==> exists|k: nat| 1 <= k <= 11 && k <= s0.len() && s1 == #[trigger] s0.skip(k as int),
+        res is Err ==> suffix_of(s0, s1),
+{
+    T::law_dec_bounded(s0);
+    if res is Ok {
+        let k = T::dec(s0)->Some_0.1;
+        assert(s1 == s0.skip(k as int));
+    }
+}
+
+/// the same two statements for the signed pairs of `read_var_signed::<i64>`
+pub proof fn lemma_read_signed_inverse<T: SignedVarInt>(s0: Seq<u8>, s1: Seq<u8>, res: Result<Signed<T>, Error>, v: Signed<T>, tail: Seq<u8>)
+    requires
+        read_post(s0, s1, res, T::dec_signed(s0)),
+        T::signed_wf(&v),
+        s0 == T::enc_signed(&v) + tail,
+    ensures
+        res is Ok && res->Ok_0 == v && s1 == tail,
+{
+    T::law_dec_enc_signed(v, tail);
+    assert((T::enc_signed(&v) + tail).skip(T::enc_signed(&v).len() as int) =~= tail);
+}
